@@ -23,6 +23,7 @@ pub fn runtime() -> tokio::runtime::Runtime {
     tokio::runtime::Builder::new_current_thread()
         .enable_all()
         .start_paused(true)
+        .rng_seed(tokio::runtime::RngSeed::from_bytes(b"rdv"))
         // tokio::fs goes through the blocking pool: one short-lived OS thread per world
         .max_blocking_threads(1)
         .thread_stack_size(256 * 1024)
